@@ -39,3 +39,9 @@ Definition with_base_prec_code (lb_bits ub_bits : Z) : option (Z * Z * Z) :=
       let '(qm, qe) := f32_div_rne m1 e1 m2 e2 in Some (qm, qe, dy_floor qm qe)
   | _, _ => None
   end.
+
+(** lb = m1 * 2^e1 and ub = m2 * 2^e2 at the common scale 2^T, T = max (0, -e1, -e2): lb / ub = wb_L / wb_U,
+    both integers (used by WithBasePrecRule.v and by the oracle) *)
+Definition wb_scale (e1 e2 : Z) : Z := Z.max 0 (Z.max (- e1) (- e2)).
+Definition wb_L (m1 e1 e2 : Z) : Z := m1 * 2 ^ (e1 + wb_scale e1 e2).
+Definition wb_U (e1 m2 e2 : Z) : Z := m2 * 2 ^ (e2 + wb_scale e1 e2).
